@@ -98,7 +98,10 @@ def render_field_ctor(f):
             return render_field_ctor(o[1]) if o[0] == "field" else "%s()" % o[1]
         lam = f["form"] == "call"
         key = X.render(f["key"], lam)
-        if f["style"] == "dict":
+        tname = (_CURRENT_TNAMES or {}).get(f.get("table"))
+        if tname:
+            body = tname
+        elif f["style"] == "dict":
             body = "{%s}" % ", ".join("%r: %s" % (kk, opt(o)) for kk, o in f["options"])
         else:
             body = "[%s]" % ", ".join(opt(o) for _, o in f["options"])
@@ -148,6 +151,7 @@ def render_field_ctor(f):
     return s
 
 
+_CURRENT_TNAMES = None
 HEADER = ("import re\nfrom bisturi.packet import Packet\nfrom bisturi.field import Int, Data, Bits, Ref, Em\n"
           "from bisturi.descriptor import Auto, AutoLength\n\n")
 
@@ -169,6 +173,21 @@ def render_family(fam, opts_override=None, suffix=""):
                     shared[key] = "OPTS%d" % len(shared)
                     out.append("%s = %r\n" % (shared[key], opts))
         out.append("\n")
+    # option tables used by two or more run-time selected references are ONE module-level dict (the same Field objects)
+    uses = {}
+    for p in fam["pkts"]:
+        for f in all_fields(p):
+            if f["k"] == "refsel" and f.get("table") and all(o[0] == "field" for _, o in f["options"]):
+                uses.setdefault(f["table"], []).append(f)
+    tnames = {}
+    for t, fs in uses.items():
+        if len(fs) >= 2:
+            tnames[t] = "TBL%d" % len(tnames)
+            out.append("%s = {%s}\n" % (tnames[t], ", ".join("%r: %s" % (kk, render_field_ctor(o[1])) for kk, o in fs[0]["options"])))
+    if tnames:
+        out.append("\n")
+    global _CURRENT_TNAMES
+    _CURRENT_TNAMES = tnames
     for p in fam["pkts"]:
         out.append("class %s%s(Packet):\n" % (p["name"], suffix))
         opts = dict(p.get("opts") or {})
@@ -186,7 +205,15 @@ def render_family(fam, opts_override=None, suffix=""):
                     src = re.sub(r"\b%s\b" % q["name"], q["name"] + suffix, src)
             out.append("    %s = %s\n" % (f["name"], src))
         out.append("\n")
+    _CURRENT_TNAMES = None
     return "".join(out)
+
+
+def all_fields(p):
+    for f in p["fields"]:
+        yield f
+        if f["k"] in ("seq", "opt"):
+            yield f["elem"]
 
 
 # ------------------------------------------------------------------------------------------------ helpers
